@@ -31,7 +31,11 @@ def finish(K, prop, tier, seed, t0, level, reps, extra_cov, assumptions, rule):
         traces_validated_against_impl=s["behaviours"] + sum(r.get("traces", 0) for r in reps),
         evaluations=s["calls"] + sum(r.get("events", 0) for r in reps),
         distinct_nontrivial=s["cfgs_with_token"] + sum(r.get("nontrivial", 0) for r in reps),
-        rule=rule,
+        rule=("states/transitions: distinct/generated states summed over all TLC runs of this check (behaviour generation, trace validation, "
+              "layer-B models). traces_validated_against_impl: TLC-generated behaviours replayed through the public API plus recorded executions "
+              "validated by TLC. evaluations: public calls executed and compared. distinct_nontrivial: generated configurations that produced at "
+              "least one token plus recorded traces accepted (each recorded trace has its own random configuration). Legs: coverage.legs[] "
+              "(kind gen = spec->code, trace = code->spec, model = layer B vs layer A). " + rule),
         samples=samples[:6] or [{"note": "no sample"}],
         exhaustive=all(r.get("world", {}).get("MOD", "1") == "1" for r in reps if r.get("kind") == "gen"),
         legs=[{k: v for k, v in r.items() if k not in ("samples", "tlc_tail", "violation_files", "dir")} for r in reps],
